@@ -19,7 +19,9 @@ EXPLANATION = (
     "terminator 0, negative byte = run, and the plain-vs-delta decision is a field-count comparison on both "
     "sides; (ORDER) names and descriptors travel in Vecs only, a sample's index is the table length at "
     "insertion, no sort/dedup/hash iteration on the path, and the CLI registers the full header; (BATCH) the "
-    "writer steps by 50 samples with min(), the reader loads batches 0..n in order (load-once is C08-H2).")
+    "writer steps by 50 samples with min(), the reader loads batches 0..n in order (load-once is C08-H2); "
+    "(ZZ) the predictive zigzag code is evaluated on a finite domain; (PARAMS) the segment size the lengths are coded against is "
+    "read from the params part for the length the writer emits.")
 UNDECIDED = "correctness of the run-length logic inside encode_split, UTF-8 handling, zigzag arithmetic for all values"
 
 COL = "ragc_common::collection::CollectionV3::"
